@@ -127,10 +127,11 @@ def _census(ctx, u: Unit) -> None:
             ctx.count("handlers")
             names = caught_names(h)
             label = f"except {', '.join(names)}"
-            if u.short in H4_UNITS:
+            canon = ctx.pkg.canonical(u)
+            if canon in H4_UNITS:
                 ctx.count("H4")
                 ctx.ok("R06.1", u, f"{label}: contextmanager classification (H4, decided by C13)")
-            elif u.short in H5_UNITS and names == ["BaseException"]:
+            elif canon in H5_UNITS and names == ["BaseException"]:
                 ctx.count("H5")
                 ctx.ok("R06.1", u, f"{label}: ExitStack unwind (H5, decided by C14)")
             elif names == ["StopAsyncIteration"]:
@@ -171,7 +172,7 @@ def _census(ctx, u: Unit) -> None:
             # R06.2: raises inside the handler body
             for sub in _own_walk(h.body):
                 if isinstance(sub, ast.Raise):
-                    if u.short in H4_UNITS and u.short.endswith("__aexit__") or u.short in H5_UNITS:
+                    if canon in H4_UNITS and canon.endswith("__aexit__") or canon in H5_UNITS:
                         continue
                     if sub.exc is None:
                         ctx.ok("R06.2", u, "bare re-raise inside handler", line=sub.lineno)
@@ -248,7 +249,7 @@ def _escapes(body, in_loop: bool) -> List[ast.AST]:
 def _aexit_falsy(ctx) -> None:
     for mod in ctx.pkg.modules.values():
         for info in mod.classes.values():
-            short = f"{mod.short}.{info.name}"
+            short = ctx.pkg.canonical_class(info)
             meth = info.methods.get("__aexit__")
             if meth is None or short in SUPPRESSING:
                 continue
@@ -268,7 +269,7 @@ def _aexit_falsy(ctx) -> None:
 
 # --------------------------------------------------------------------------- R06.4
 def _no_reuse(ctx, u: Unit) -> None:
-    if u.short in H5_UNITS or u.short in H4_UNITS:
+    if ctx.pkg.canonical(u) in H5_UNITS or ctx.pkg.canonical(u) in H4_UNITS:
         return
     cfg = cfg_of(u)
     steps = [n for n in cfg.nodes if not n.tag and (n.kind == "pull" or is_user_call(ctx, u, n)
